@@ -395,6 +395,10 @@ def correspond(chk, model, tier, rng, reader, names, extra_strings, us_attrs, to
         if s and not re.match(r"^[^\W\d][\w°%]*$", s.replace("°", "d").replace("%", "p"), re.U):
             continue
         strings.append(s)
+    from unyt import _parsing
+
+    rewritten = dict(getattr(_parsing, "_rewritten_name_alternatives", {}))
+    strings += list(rewritten) + ["kilodegC", "KilodegC", "yoctodegC", "kilodegF", "kilodeg"]
     strings += ["Δ°C", "Δ°F", "kΔ°C", "Δ", "Δ°", "kiloΔ°C", "delta_degC", "kdelta_degC", "Δ°C°C", "%Δ°F"]
     strings = list(dict.fromkeys(strings))
     # the shared string-keyed model of the look-up (UnytModel/Lut.lean, used by C02/C12) against this one
@@ -407,6 +411,9 @@ def correspond(chk, model, tier, rng, reader, names, extra_strings, us_attrs, to
         vb = b[1:5] if b[0] == "ok" else b[:2]
         if s in ("Symbol", "Integer", "Float", "Rational", "sqrt"):
             continue  # the shared model has no parser globals (they are not table keys either way)
+        if s.replace("°", "deg") in rewritten and s.replace("°", "deg") not in INV:
+            chk.count("corr:two-models:rewritten-name-skipped")
+            continue  # … nor the parser's table of rewritten spellings (kilo°C → kilodegC → kdegC)
         if va != vb:
             chk.disagree("two-models", f"{s!r}: Names.lean {va} Lut.lean {vb}")
     for which, r_ in (("default", None), ("custom", reg)):
